@@ -606,11 +606,20 @@ fn build(raw: Raw) -> Case {
     if header_on {
         let name = HEADER_NAMES[pick(raw.header_name, HEADER_NAMES.len())];
         let (hs, ha) = raw.secrets[1].clone();
-        let value = match raw.header_scheme % 4 {
-            0 => format!("Bearer {hs}"),
-            1 => format!("Token {hs}"),
+        // two cases in twelve: a value as it arrives from a paste or `$(cat token)` - trailing line
+        // break or a control byte - which no HTTP client can put on the wire: the run fails before
+        // the request is sent, and whatever reports that failure must not quote the value
+        let value = match raw.header_scheme % 12 {
+            0..=2 => format!("Bearer {hs}"),
+            3 | 4 => format!("Token {hs}"),
+            5 => format!("{hs}\n"),
+            6 => format!("Bearer {hs}\r\n"),
+            7 => format!("{hs}\u{1}"),
             _ => hs.clone(),
         };
+        if (5..=7).contains(&(raw.header_scheme % 12)) {
+            labels.push("header:value_cannot_be_sent".into());
+        }
         put(h_layer, json!({"provider": {p: {"headers": {name: value}}}}));
         header_names.push(name.to_string());
         canaries.push(Canary {
